@@ -2362,13 +2362,19 @@ impl RaftNode {
             if log_ok {
                 success = self.append_leader_entries(&ae.entries, &mut persistent);
 
-                match_index = persistent.array_len_as_log_index();
+                // Only the log up to the last entry of this request is known to
+                // match the leader's. Entries beyond it may be an uncommitted
+                // suffix from an earlier term that the leader does not have, so
+                // they must neither be acknowledged nor be marked committed.
+                let last_matching = (ae.prev_log_index + ae.entries.len() as u64)
+                    .min(persistent.array_len_as_log_index());
+                match_index = last_matching;
 
                 // Update commit index
                 let mut volatile = self.volatile.write();
                 if ae.leader_commit > volatile.commit_index {
                     volatile.commit_index =
-                        ae.leader_commit.min(persistent.array_len_as_log_index());
+                        volatile.commit_index.max(ae.leader_commit.min(last_matching));
                 }
             }
         }
